@@ -45,6 +45,8 @@ type Link struct {
 	H    *simplefixgo.DefaultHandler
 	S    *session.Session
 	Peer *Peer
+	// LogonExtra are additional fields the scripted peer puts into its Logon.
+	LogonExtra []fixref.Field
 
 	Disconnected int64 // unix nano of OnDisconnect, 0 if never
 	Stopped      int64 // unix nano of OnStopped
@@ -279,7 +281,7 @@ func (l *Link) Logon(role Role, hb int, timeout time.Duration) bool {
 			return false
 		}
 	}
-	l.Conn.Feed(l.Peer.Logon(hb, "0"))
+	l.Conn.Feed(l.Peer.Logon(hb, "0", l.LogonExtra...))
 	deadline := time.Now().Add(timeout)
 	for time.Now().Before(deadline) {
 		if l.S != nil && l.S.IsLogged() {
